@@ -14,7 +14,9 @@ MANIFEST = dict(
          'inputs are pairwise different; every selected UTxO is an explicit input, a potential input or reported by the context '
          'at a registered address; every explicit input is present; no excluded UTxO is selected; explicit and excluded '
          'overlap <=> build refuses with TransactionBuilderException; body inputs strictly ascending in (tx id bytes, index), '
-         'with the lemma that ordering lower-case hex strings = ordering bytes (all byte strings). Partial: "caller objects '
+         'with the lemma that ordering lower-case hex strings = ordering bytes (all byte strings); on a chain that MOVES between '
+         'builds of one builder every selected UTxO was handed over by the caller, selected by an earlier build, or is reported '
+         'by the context in force at that build (C09_history_live). Partial: "caller objects '
          'unmodified" is monitored (byte/field snapshots around every build), not proved.',
     note='Trusted: Coq kernel+vm_compute; hand model Inputs.v of the input slice of TransactionBuilder.build tied by exact '
          'correspondence on the real build() (ordered builder.inputs, ordered body inputs, exception kind) with the selector '
